@@ -476,7 +476,7 @@ func genCrashCase(t *rapid.T) crashCase {
 	x.NoRootDir = rapid.IntRange(0, 3).Draw(t, "rootdir") != 0
 	x.Mode = rapid.SampledFrom([]string{"scan", "paths"}).Draw(t, "mode")
 	x.QUICVis = rapid.Bool().Draw(t, "quicvis")
-	x.Segment = rapid.SampledFrom([]int{0, 0, 0, 1, 7, 13}).Draw(t, "segment")
+	x.Segment = rapid.SampledFrom([]int{0, 0, 1, 1, 7, 13}).Draw(t, "segment")
 	cc := crashCase{X: x, Delay: rapid.SampledFrom([]int{0, 0, 0, 2, 10}).Draw(t, "hashdelay")}
 	n := rapid.IntRange(1, 3).Draw(t, "chain")
 	for i := 0; i < n; i++ {
@@ -515,6 +515,21 @@ func TestVerifC04Histories(t *testing.T) {
 	defer rec.Flush()
 	rapid.Check(t, func(rt *rapid.T) {
 		cc := genCrashCase(rt)
+		if rapid.IntRange(0, 3).Draw(rt, "regeometry") == 2 {
+			// one interrupted attempt with several streams (marks with holes), then the final
+			// attempt with another chunk size under which some file keeps its chunk count
+			first := cc.Chain[0]
+			first.Kind, first.FlushEvery, first.Site, first.ChunkDelta = "kill", 1, "", 0
+			if first.At < 0.35 {
+				first.At += 0.35
+			}
+			cc.Chain = []interruption{first}
+			cc.FinalDelta = 99
+			if cc.X.Streams < 2 {
+				cc.X.Streams = 3
+			}
+			rec.Class("final-attempt-with-same-count-chunk-size")
+		}
 		sig, detail, st, err := runHistory(cc, "C04")
 		if err != nil {
 			rec.Class("not-run")
